@@ -43,7 +43,10 @@ fn main() {
                     p_c09::run(&mut out, tier, seed);
                     p_t2::strs(&mut out, tier, seed);
                 }
-                "C20" => p_c20::run(&mut out, tier, seed),
+                "C20" => {
+                    p_c20::run(&mut out, tier, seed);
+                    p_t2::pos(&mut out, tier, seed);
+                }
                 "C01" => {
                     p_c01::run(&mut out, tier, seed);
                     // deep nesting in a child process with an ordinary 8 MiB stack: an abort there is the replay
